@@ -235,7 +235,7 @@ theorem readRowsH_render {α : Type} (x : Ext α) (sh : Nat → String) (comma :
   unfold readRowsH
   rw [hany, hsel, hlines]
   simp only [Bool.not_true, Bool.false_eq_true, if_false, h1, hscan, hnames, hw, h4, Int.toNat_natCast]
-  simp only [List.map_map, Function.comp_def, hdata, List.any_map, List.length_map, bne_self_eq_false, List.any_eq_false]
+  simp only [List.map_map, Function.comp_def, hdata, List.any_map, List.length_map, bne_self_eq_false]
   rw [hblocks, firstApp_blocks a.elements hnd a.nscans hm, ← hblocks, map_elems]
   have hpl : allSome ((List.range a.elements.length).map (fun ei =>
       fitCols a.nscans (((rowsSel a.nscans a.elements.length ci).map (fun y => a.elem y.2.1)).filter (fun nm => nm == a.elem ei)).length
